@@ -76,6 +76,7 @@ structure Acc where
   ops   : List Op := []                    -- the history in model terms (for wf / the spec)
   res   : List String := []
   isub  : Nat := 0
+  idsOk : Bool := true                     -- every returned id had the issued form `<session>-<type>-<digits>`
 
 /-- run the wire history through the model's `step`; `implRes` = the implementation's per-op results (source of suffixes) -/
 def runW (ws : List W) (implRes : List String) : Acc := Id.run do
@@ -84,13 +85,19 @@ def runW (ws : List W) (implRes : List String) : Acc := Id.run do
   for w in ws do
     match w with
     | .s sess t =>
-      let (u, suf) := match (implRes[i]?).bind fromHex |>.bind (suffixOf sess t) with
+      let parsed := (implRes[i]?).bind fromHex |>.bind (suffixOf sess t)
+      let (u, suf) := match parsed with
         | some p => p
         | none => (1000000 + i, dec (1000000 + i))
+      -- an identifier that was already handed out for this (session, type) — live or cancelled — is NOT what the
+      -- property allows: the expected result is a fresh identifier, whatever the implementation returned
+      let stale := a.subs.any fun x => x.1 == sess && x.2.1 == t && x.2.2 == suf
       let op := Op.sub sess t u
       let r' := step a.r op
       let id := match r'.out.getLast? with | some (.id x) => x | _ => []
-      a := { a with r := r', subs := a.subs ++ [(sess, t, suf)], ops := a.ops ++ [op], res := a.res ++ [hexS id] }
+      let shown := if stale then "FRESH-ID-EXPECTED" else hexS id
+      a := { a with r := r', subs := a.subs ++ [(sess, t, suf)], ops := a.ops ++ [op], res := a.res ++ [shown],
+                    idsOk := a.idsOk && parsed.isSome }
     | .u k =>
       a := { a with r := step a.r (.unsub k), ops := a.ops ++ [.unsub k], res := a.res ++ ["."] }
     | .y k v =>
@@ -171,14 +178,16 @@ def handle (op : String) (args : List String) (impl : String) : Option Verdict :
     let implRes := items (implParts.headD "") ";"
     let a := runW ws implRes
     let m := joinOr a.res ";" ++ "|" ++ showSt a.r.st
-    let wfOk := wf a.ops
+    let wfOk := wfIn a.ops
+    let freshOk := fresh a.ops
     let nsub := a.subs.length
-    let tag := s!"run:wf={wfOk}:subs={min nsub 3}:dashed={a.subs.any fun x => x.1.contains dash}:live={min a.r.st.length 3}:cancel={a.ops.any fun o => match o with | .unsub _ => true | _ => false}"
-    -- the property predicate on the implementation's observations (no claim outside well-formed histories)
+    let tag := s!"run:wf={wfOk}:fresh={freshOk}:subs={min nsub 3}:dashed={a.subs.any fun x => x.1.contains dash}:live={min a.r.st.length 3}:cancel={a.ops.any fun o => match o with | .unsub _ => true | _ => false}"
+    -- the property predicate on the implementation's observations: fresh identifiers ∧ exact deliveries ∧ exact
+    -- retention (no claim for histories with undeclared types or foreign ids)
     let ok := !wfOk || (match implParts, implDeliveries ws implRes with
       | [_, ret], some dels =>
         (match implRetained ret with
-         | some live => P12 a.ops dels live && !impl.contains '!'
+         | some live => a.idsOk && PFull a.ops dels live && !impl.contains '!'
          | none => false)
       | _, _ => false)
     return ⟨m, ok, tag⟩
